@@ -29,6 +29,8 @@ ASSUMPTIONS = ["float64 CPU, scf_eps 1e-11, Pulay", "fragments: neutral closed-s
                "generic orientations only (no pair vector within 5 degrees of a Cartesian axis)"]
 REQUIRED_MONITORS = ["parser_calls_default_cutoff", "parser_calls_finite_cutoff", "separations_judged",
                      "cut_dimers_judged", "parser_batches_judged"]
+# thorough tier: cases not started after this many seconds are skipped and reported (env override for smoke tests)
+BUDGET_S = {"thorough": float(__import__("os").environ.get("VERIF_C19_BUDGET", "1500"))}
 CASE_TIMEOUT = 900.0
 
 K_E = 14.399645          # e^2/(4 pi eps0) in eV A
@@ -43,7 +45,7 @@ FLOOR_E, FLOOR_F, FLOOR_Q, FLOOR_EMO = 2e-11, 2e-9, 2e-10, 2e-9
 TOL_CUT = 1e-9
 MECH_COLD = "far-fragments-cold-start-scf-charge-transfer-state"
 R_ALL = [8, 12, 20, 30, 50, 100, 200, 500]
-R_MIN_JUDGED = 20        # below this the multipole series about the centroids is not yet asymptotic: recorded only
+R_MIN_JUDGED = 8         # every generated separation is judged; the allowances (1 + 10 A / R_eff, quadrupole terms) cover the near range
 FRAGS = ["H2O", "NH3", "CH4", "HF", "CO", "CO2", "N2", "HCN", "C2H2", "C2H4", "CH2O", "CH3OH", "CH3F", "LiH", "HCl",
          "H2S", "CH3Cl", "SO2", "HNO", "N2O", "LiF", "NaCl", "PH3", "SiH4", "BF3", "HOOH", "H2", "F2", "CH3NH2", "HCOOH"]
 
@@ -69,6 +71,7 @@ def gen_cases(tier, seed):
         cases.append({"kind": "frag", "method": method, "frags": pick, "seed": int(g.integers(0, 2**31)), "Rs": Rs,
                       "cutoffs": [10.0, 15.0, 25.0] if tier == "thorough" else [[10.0, 25.0], [15.0], [10.0], [25.0, 15.0]][len(cases) % 4]})
     cases.sort(key=lambda c: -sum(len(gen.molecule(f)[0]) for f in c["frags"]))
+    frag_cases, cases = cases, []
     for i in range(nparser):
         method = ["AM1", "PM3", "MNDO", "PM6_SP"][i % 4]
         names = [x for x in FRAGS if gen.available(x, method)]
@@ -81,7 +84,8 @@ def gen_cases(tier, seed):
         cases.append({"kind": "parser", "method": method, "systems": systems, "pad": int(g.integers(0, 3)),
                       "padval": [0.0, "random", 1e6, "coincident"][int(g.integers(0, 4))],
                       "cutoff": [None, 4.0, 6.0, 10.0, 15.0, 25.0, 1e3][int(g.integers(0, 7))], "seed": int(g.integers(0, 2**31))})
-    return cases
+    # the three largest fragment systems first (long poles), then the cheap parser cases, then the rest
+    return frag_cases[:3] + cases + frag_cases[3:]
 
 
 # ---------------------------------------------------------------------------------------------
